@@ -28,8 +28,26 @@ def main(tier):
         dpt, multi = a
         return a, subprocess.run([os.path.join(out, "harness", "ephmc"), str(dpt), str(multi)], env=e, stdout=subprocess.PIPE,
                                  stderr=subprocess.STDOUT, timeout=3000)
-    with ThreadPoolExecutor(2) as ex:
+    def run_fds2(_):
+        # two port slots x two kinds of port (file port, port on a descriptor object), every history of <= 4 operations (plain build)
+        build.build_variant("opt")
+        return common.evalbatch("opt", [os.path.join(common.VERIF, "scheme", "weak", "fds2.scm")], timeout=1200)
+    with ThreadPoolExecutor(3) as ex:
+        fut2 = ex.submit(run_fds2, None)
         runs = list(ex.map(run_ephmc, [(depth, 0), (depth - 1, 1)]))
+        r2 = fut2.result()
+    mm = re.search(r"^FD2-HISTORIES \((\d+) (\d+)\)", r2.out, re.M)
+    if r2.rc != 0 or r2.timed_out or not mm or ";;EXC" in r2.out:
+        chk.violation({"op": "fds2-crash"}, "two-slot descriptor scenario ended abnormally (rc=%s): %s" % (r2.rc, r2.out[-600:]))
+    else:
+        chk.count(int(mm.group(1)), outcome="port-history")
+        chk.nontrivial_n += int(mm.group(1))
+        chk.cov["port_histories_two_slots"] = int(mm.group(1))
+        for l in r2.out.split("\n"):
+            if l.startswith("FD2-MISMATCH"):
+                chk.violation({"op": "fd-leak-or-early-close", "line": l}, "descriptor count / readability differs from the model: " + l)
+        if int(mm.group(2)) and "FD2-MISMATCH" not in r2.out:
+            chk.violation({"op": "fd-final-count"}, "%s histories left descriptors open at their end" % mm.group(2))
     for (dpt, multi), p in runs:
         txt = p.stdout.decode("utf-8", "replace")
         m = re.search(r"STATS states=(\d+) transitions=(\d+) depth=(\d+) alphabet=(\d+) gc_transitions=(\d+) violations=(\d+)", txt)
